@@ -163,7 +163,9 @@ func pipelineErrClass(err error) string {
 func checkC01(r *Run) {
 	n := r.n(14, 220)
 	r.Rule = "AM schemas (grammar of the property) rendered as JSON Schema / OpenAPI / CUE → real pipeline (YAML) with Go types, json marshaller and strict unmarshaller → compiled driver; documents = boundary/variant documents derived from the AM and accepted by the format's own reference validator. distinct_nontrivial = distinct (schema, object, document) triples executed whose document has at least one member"
-	c := buildCorpus(r, corpusOpts{N: n, Formats: []string{"jsonschema", "openapi", "cue"}, Profile: "general", Langs: []string{"go"}, DocsPerObj: r.n(8, 14), Tag: "c01"})
+	c := buildCorpus(r, corpusOpts{N: n, Formats: []string{"jsonschema", "openapi", "cue"}, Profile: "general", Langs: []string{"go"}, DocsPerObj: r.n(10, 16), Tag: "c01",
+		// C01 is about the decoders: Equals/Validate generation is left to C13/C08 (and C02 for whether it compiles)
+		GoFlags: map[string]any{"generate_equal": false, "generate_validate": false}})
 	defer c.cleanup()
 	c01Judge(r, c, true)
 }
